@@ -1,0 +1,30 @@
+//go:build verif
+
+package expr
+
+// Contracts checked by /verif/goavc (comment-only file, built only with -tags verif).
+
+// The structural hash must not depend on Go's map iteration order ("hashing the same type repeatedly
+// always gives the same answer"): every range over a map in these functions carries a commutativity
+// obligation (running the body for two distinct keys in either order gives the same result).
+//@ func hashUserType
+//@   property C13 C09
+//@   opt maprange deterministic
+
+//@ func hashObject
+//@   property C13 C09
+//@   opt maprange deterministic
+
+// Permutation invariance: the comparators handed to sort.Slice must order the slice being sorted
+// (the call-site precondition of sort.Slice, checked on the comparator's real body).
+//@ func hashUnion
+//@   property C13
+
+//@ func sorted
+//@   property C13
+
+// sortedKeys: a range over the map that only collects the keys, followed by sort.Strings. The order of the
+// result is fixed by the sort (assumed library postcondition), not by the iteration.
+//@ func sortedKeys
+//@   trusted
+//@   modifies nothing
